@@ -290,6 +290,24 @@ OPAQUE_TYPES = {10} | set(range(65280, 65535))
 SIMPLE_TYPES = {1, 2, 5, 6, 12, 15, 16, 28}
 
 
+def opt_options_opaque(w, rr):
+    """OPT rdata: every option met before a malformation is PADDING or a private-use code, i.e. its
+    data is not interpreted by the library (a malformed option list is a FormError on both sides)"""
+    p, end = rr["rdata"], rr["rdata"] + rr["rdlen"]
+    if end > len(w):
+        return True
+    while p < end:
+        if p + 4 > end:
+            return True
+        code, olen = struct.unpack("!HH", w[p: p + 4])
+        if not (code == 12 or 65001 <= code <= 65534):
+            return False
+        if p + 4 + olen > end:
+            return True
+        p += 4 + olen
+    return True
+
+
 def simple_rdata_ok(w, rr):
     """class IN records of a few ordinary types: is the rdata well-formed (so that the library's
     typed parse and the model's opaque skip agree)?  independent of the library"""
@@ -333,6 +351,9 @@ def rfc_verdict(w, keyname, secret, keyalg, request_mac, now, running=None):
         return ("malformed", info["error"])
     if info["end"] != len(w):
         return ("malformed", "trailing")
+    opts = [r for r in info["rrs"] if r["type"] == 41]
+    if len(opts) > 1 or any(r["section"] != 3 or r["owner"] != [b""] for r in opts):
+        return ("malformed", "edns")                    # RFC 6891 6.1.1
     ts = [r for r in info["rrs"] if r["type"] == 250]
     if not ts:
         return ("unsigned",)
@@ -616,6 +637,8 @@ def sign_message_impl(wire, key, owner, rd, now, rmac, ctx, multi, how, raw_ctx=
         for sec, rrsets in ((1, m.answer), (2, m.authority), (3, m.additional)):
             for rrset in rrsets:
                 r.add_rrset(sec, rrset, want_shuffle=False)
+        if m.opt is not None:
+            r.add_opt(m.opt)
         r.write_header()
         with clock(now):
             if multi:
@@ -735,6 +758,17 @@ def build_wire(rng, opaque=True, qname=None):
             t = rng.choice(SECTION_TYPES)
             rdata = bytes(rng.randrange(256) for _ in range(rng.choice([0, 1, 4, 4, 16, 33])))
             body += owner + u16(t) + u16(rng.choice([1, 1, 1, 3, 254, 255])) + struct.pack("!I", rng.choice([0, 300, 2 ** 31 - 1, 2 ** 31, 2 ** 32 - 1])) + u16(len(rdata)) + rdata
+    if rng.random() < 0.3:
+        opts = b""
+        for _ in range(rng.choice([0, 0, 1, 2])):
+            d = bytes(rng.randrange(256) for _ in range(rng.choice([0, 3, 8])))
+            opts += u16(rng.choice([12, 65001, 65300])) + u16(len(d)) + d
+        owner = b"\0" if rng.random() < 0.9 else plain_wire([b"x", b""])
+        body += owner + u16(41) + u16(rng.choice([512, 1232, 4096])) + struct.pack("!I", rng.choice([0, 0x8000, 0x01000000])) + u16(len(opts)) + opts
+        counts[3] += 1
+        if rng.random() < 0.1:
+            body += b"\0" + u16(41) + u16(1232) + struct.pack("!I", 0) + u16(0)
+            counts[3] += 1
     return struct.pack("!HHHHHH", mid, flags, *counts) + bytes(body)
 
 
@@ -1083,11 +1117,8 @@ def read_case(w, kr, keys, rmac, now, ctx=None, multi=0):
 
 
 def gen_realistic_read_case(rng):
-    """an ordinary query/response (A, NS, SOA, MX, TXT, AAAA; no EDNS) signed per the RFC, genuine or with one bit flipped"""
-    for _ in range(20):
-        body = realistic_message(rng)
-        if not any(r["type"] == 41 for r in walk(body)["rrs"]):
-            break
+    """an ordinary query/response (A, NS, SOA, MX, TXT, AAAA; EDNS in half of them) signed per the RFC, genuine or with one bit flipped"""
+    body = realistic_message(rng)
     k = gen_key(rng, 0)
     full, k, rmac, time, fudge, mac, start = signed_wire(rng, wire=body, k=k)
     now = time + rng.choice([0, fudge, -fudge])
@@ -1344,7 +1375,10 @@ def in_model(kind, case):
             if len(w) >= 12 and ((info.get("flags", 0) >> 11) & 15) == 5:
                 return False
             for r in info["rrs"]:
-                if r["type"] != 250 and r["type"] not in OPAQUE_TYPES:
+                if r["type"] == 41:
+                    if not opt_options_opaque(bytes(w), r):
+                        return False
+                elif r["type"] != 250 and r["type"] not in OPAQUE_TYPES:
                     if not (r["type"] in SIMPLE_TYPES and simple_rdata_ok(bytes(w), r)):
                         return False
     return True
